@@ -6,6 +6,13 @@
 #include "sim.hpp"
 #include <vector>
 #include <cstdint>
+#ifdef SIM_GOMP_THREADS
+// TSan build: the team consists of REAL threads (created per region, joined at its end - TSan understands pthread
+// create/join, so the fork/join edges need no annotation). Only used with a single inline rank (sim::Options::inline_single).
+#include <thread>
+#include <mutex>
+namespace { thread_local int tl_tid = 0; thread_local int tl_nthr = 1; std::mutex g_crit, g_loopmx; }
+#endif
 
 namespace {
 struct LoopState { long next = 0, end = 0, incr = 1, chunk = 1; bool active = false; int last_tid = 0; long region = -1; };
@@ -16,6 +23,9 @@ int g_requested_threads = 0;    // omp_set_num_threads() of the running rank (no
 sim::World* W() { sim::World* w = sim::cur(); return (w && sim::cur_rank() >= 0) ? w : nullptr; }
 
 bool loop_next(long* istart, long* iend);
+#ifdef SIM_GOMP_THREADS
+void run_team_threads(sim::World* w, void (*fn)(void*), void* data, int T, bool combined_loop, long ls, long le, long li, long lc);
+#endif
 
 int team_size(sim::World* w, unsigned num_threads) {
     int T = num_threads ? (int)num_threads : (g_requested_threads > 0 ? g_requested_threads : w->opt().omp_threads);
@@ -28,6 +38,9 @@ void loop_init(long start, long end, long incr, long chunk) {
 }
 
 void run_team(sim::World* w, void (*fn)(void*), void* data, int T, bool combined_loop = false, long ls = 0, long le = 0, long li = 1, long lc = 1) {
+#ifdef SIM_GOMP_THREADS
+    run_team_threads(w, fn, data, T, combined_loop, ls, le, li, lc); return;
+#endif
     w->yield_point(sim::EV_OMP, T);
     g_region++;
     g_loop.active = false;
@@ -68,7 +81,37 @@ bool loop_start(long start, long end, long incr, long chunk, long* istart, long*
     return loop_next(istart, iend);
 }
 
+#ifdef SIM_GOMP_THREADS
+void run_team_threads(sim::World* w, void (*fn)(void*), void* data, int T, bool combined_loop, long ls, long le, long li, long lc) {
+    w->yield_point(sim::EV_OMP, T);
+    w->stats().omp_regions++;
+    if (T > w->stats().omp_max_team) w->stats().omp_max_team = T;
+    g_region++;
+    g_loop.active = false;
+    if (combined_loop) loop_init(ls, le, li, lc);
+    g_loop.last_tid = -1;
+    std::vector<std::thread> th;
+    for (int i = 1; i < T; i++) th.emplace_back([=]() { tl_tid = i; tl_nthr = T; fn(data); tl_tid = 0; tl_nthr = 1; });
+    tl_tid = 0; tl_nthr = T;
+    fn(data);
+    tl_nthr = 1;
+    for (auto& t : th) t.join();
+    g_loop.active = false;
+}
+#endif
+
 bool loop_next(long* istart, long* iend) {
+#ifdef SIM_GOMP_THREADS
+    std::lock_guard<std::mutex> lk(g_loopmx);
+    if (!g_loop.active) return false;
+    {
+        long remaining = g_loop.incr > 0 ? (g_loop.end - g_loop.next + g_loop.incr - 1) / g_loop.incr : (g_loop.next - g_loop.end - g_loop.incr - 1) / (-g_loop.incr);
+        if (remaining <= 0) return false;
+        long n = remaining < g_loop.chunk ? remaining : g_loop.chunk;
+        *istart = g_loop.next; *iend = g_loop.next + n * g_loop.incr; g_loop.next = *iend;
+        return true;
+    }
+#endif
     if (!g_loop.active) return false;
     long remaining = g_loop.incr > 0 ? (g_loop.end - g_loop.next + g_loop.incr - 1) / g_loop.incr : (g_loop.next - g_loop.end - g_loop.incr - 1) / (-g_loop.incr);
     if (remaining <= 0) return false;
@@ -85,8 +128,13 @@ bool loop_next(long* istart, long* iend) {
 
 extern "C" {
 
+#ifdef SIM_GOMP_THREADS
+int omp_get_num_threads(void) { return tl_nthr; }
+int omp_get_thread_num(void) { return tl_tid; }
+#else
 int omp_get_num_threads(void) { sim::World* w = W(); return w ? w->omp_nthr : 1; }
 int omp_get_thread_num(void) { sim::World* w = W(); return w ? w->omp_tid : 0; }
+#endif
 // as in libgomp: an upper bound of the team size of the next parallel region (per-thread buffers are sized with it).
 // Eigen's own OpenMP GEMM (which spin-waits between threads and cannot run on serialised logical threads) is switched off
 // at compile time with -DEIGEN_DONT_PARALLELIZE; it is only reachable for blocks larger than about 47x47 anyway.
@@ -119,17 +167,29 @@ void GOMP_barrier(void) {
 
 void GOMP_parallel(void (*fn)(void*), void* data, unsigned num_threads, unsigned /*flags*/) {
     sim::World* w = W();
+#ifdef SIM_GOMP_THREADS
+    if (!w || tl_nthr > 1) { fn(data); return; }
+#endif
     if (!w || w->omp_nthr > 1) { fn(data); return; } // outside simulation / nested: team of one
     run_team(w, fn, data, team_size(w, num_threads));
 }
 
 // mutual exclusion is trivially satisfied by the serialised logical threads
+#ifdef SIM_GOMP_THREADS
+void GOMP_critical_start(void) { g_crit.lock(); }
+void GOMP_critical_end(void) { g_crit.unlock(); }
+void GOMP_critical_name_start(void**) { g_crit.lock(); }
+void GOMP_critical_name_end(void**) { g_crit.unlock(); }
+void GOMP_atomic_start(void) { g_crit.lock(); }
+void GOMP_atomic_end(void) { g_crit.unlock(); }
+#else
 void GOMP_critical_start(void) {}
 void GOMP_critical_end(void) {}
 void GOMP_critical_name_start(void**) {}
 void GOMP_critical_name_end(void**) {}
 void GOMP_atomic_start(void) {}
 void GOMP_atomic_end(void) {}
+#endif
 bool GOMP_single_start(void) { sim::World* w = W(); return !w || w->omp_nthr <= 1 || w->omp_tid == 0; }
 void GOMP_ordered_start(void) {}
 void GOMP_ordered_end(void) {}
